@@ -145,6 +145,7 @@ Proof.
   pose proof (M i st Hs) as H.
   destruct (nth_error _ t) as [tk|]; [|constructor].
   destruct (status_eqb _ NOT_STARTED); [mx_list H|].
+  destruct (before_incomplete s i); [mx_list H|].
   destruct (negb _); [mx_list H|]. destruct (t_disabled tk); mx_list H.
 Qed.
 
